@@ -85,6 +85,14 @@ pub fn hash_stream<B: Hash>(v: &B) -> Vec<u8> {
     v.hash(&mut h);
     h.0
 }
+/// The data fed to the hasher when the vector is an element of a hashed slice (`[B]`, `[B; K]`, `Vec<B>`
+/// all go through `Hash::hash_slice`, which a type may override).
+pub fn hash_slice_stream<B: Hash + Clone>(v: &B) -> Vec<u8> {
+    let mut h = RecHasher::default();
+    let els = [v.clone(), v.clone()];
+    Hash::hash_slice(&els[..], &mut h);
+    h.0
+}
 pub fn default_hash<B: Hash>(v: &B) -> u64 {
     let mut h = std::collections::hash_map::DefaultHasher::new();
     v.hash(&mut h);
@@ -721,6 +729,9 @@ fn exec_inner(x: &mut AnyBv, y: &Y, op: &str, f: &str, a: &Args) -> Out {
     if op == "hash" {
         // handled by the drivers (needs interning); here: DefaultHasher output as a number's low bits
         return with_any!(&*x, xv => Out::Bytes(hash_stream(xv)));
+    }
+    if op == "hash_slice" {
+        return with_any!(&*x, xv => Out::Bytes(hash_slice_stream(xv)));
     }
     match y {
         Y::Vec(yv) => {
